@@ -58,6 +58,12 @@ Size- / value-dependent mutations (scratch copies /var/tmp/mut_strong1_<N>), all
   M4  keyword.normalize truncates float keywords to int
   M6  BaseIndexMixin.docids drops not_indexed once more than 150 documents are indexed
   M12 docids() cached on (indexed_count, not_indexed_count)
+Round 4: the field kind also draws from the `X+none` pools of props/c01.py (24% of the field cases; the VALUE None
+- attribute present and None - is used by a third of the value-carrying operations there: 2100 index operations to or
+from the value None per quick run).  document_repr(d) with the implicit default None cannot tell "value None" from
+"unknown" (it returns None for both), so documents whose value is None are asked with an explicit default.  Seeded
+C06_G (unindex_doc reads `pop(docid, None)` and returns on None) was missed before and is caught now; mutation C of
+props/c01.py (index_doc tests `rev_index.get(docid) is not None`) is caught here too.
 `BaseIndexMixin.reindex_doc` without its unindex_doc is an equivalent mutant for these three classes (their
 index_doc handles a known id itself); the three classes override reindex_doc by index_doc.
 """
@@ -76,7 +82,8 @@ RULE = ("histories of index/reindex/unindex+index/unindex/reset (keyword, facet:
         "ends, four pipelines, DICT_CUTOFF 2/3/default) incl. re-indexing identical content (same list, reordered, with duplicates), "
         "value <-> no value alternation, empty keyword/path lists on known and unknown ids, paths matching "
         "no configured facet, unindexing unknown ids, reset in the middle, both BTrees families, attribute and "
-        "callable discriminators, list, tuple and set values, the value pools of C01/C02 (int, str incl. '', ints/"
+        "callable discriminators, list, tuple and set values, the value pools of C01/C02 (field: 24% with the VALUE None as "
+        "lowest value; int, str incl. '', ints/"
         "floats/bools mixed with 1 == 1.0 == True as one value, tuples, bytes, 120-value pools); bulk modes (about "
         "12% of the field/keyword/facet cases): 70-400 documents with one posting of 65-400 docids or 35-110 "
         "distinct values, optionally 121-199 documents without a value, a drain of the big posting back to 58-66 "
@@ -302,8 +309,8 @@ def _hist_features(case, outs, value_class):
 def gen_field(rng, tier):
     fam = rng.choice([32, 64])
     vtype = rng.choice(c01.VTYPES)
-    if rng.random() < (0.3 if vtype in ("wide", "widestr") else BULK_SHARE):
-        kind = "wide" if vtype in ("wide", "widestr") and rng.random() < 0.7 else "hot"
+    if rng.random() < (0.3 if vtype in c01.WIDE_KINDS else BULK_SHARE):
+        kind = "wide" if vtype in c01.WIDE_KINDS and rng.random() < 0.7 else "hot"
         cfg = [["cfg", "family", fam], ["cfg", "vtype", vtype], ["cfg", "disc", rng.choice(["attr", "callable"])],
                ["cfg", "mode", "bulk-" + kind]]
         return {"session": "field", "cfg": cfg,
@@ -313,6 +320,11 @@ def gen_field(rng, tier):
         ids = ids[:rng.randrange(2, 8)]
     nvals = rng.randrange(1, 7)
     used = sorted(rng.sample(range(len(c01.pool_of(vtype))), nvals))
+    nonev = bool(c01.qlo_of(vtype)) and rng.random() < 0.85
+    if nonev:
+        # `X+none` pools: the VALUE None (rank 0: attribute present and None; a value like any other, sorted below
+        # everything) is among the values, and a third of the value-carrying operations use it
+        used = sorted(set(used) | {0})
     maxlen = 40 if tier == "quick" or rng.random() < 0.9 else 300
     cmds = []
     for _ in range(rng.randrange(4, maxlen)):
@@ -324,6 +336,8 @@ def gen_field(rng, tier):
             cmds.append(["unindex", d])
         elif r < 0.4:
             cmds.append([_index_verb(rng), d, "none"])
+        elif nonev and r < 0.6:
+            cmds.append([_index_verb(rng), d, 0])
         else:
             cmds.append([_index_verb(rng), d, rng.choice(used)])
         _probes(rng, cmds, d, ids, fresh=False)
@@ -349,10 +363,19 @@ class FieldObs(_Base):
     def canon_repr(self, r):
         return str(self.f.rank.get(r, "?" + r))     # document_repr = repr(value)
 
+    def show_repr(self, idx, d):
+        # a document whose value is None: `document_repr(d)` with the implicit default None cannot tell "value None"
+        # from "unknown" (it returns the default, None, for both) - such documents are asked with an explicit default
+        cur = self.current.get(d)
+        if cur and cur != ["none"] and self.f.pool[cur[0]][0] is None:
+            self.nrepr += self.nrepr % 2
+        return _Base.show_repr(self, idx, d)
+
 
 def features_field(case, outs):
-    f = _hist_features(case, outs, lambda v: "none" if v == ["none"] else "val")
     cfg = cfgdict(case)
+    nonev = c01.qlo_of(cfg.get("vtype"))
+    f = _hist_features(case, outs, lambda v: "none" if v == ["none"] else "valNone" if nonev and v == [0] else "val")
     f += ["field:vtype:%s" % cfg.get("vtype"), "field:mode:%s" % cfg.get("mode", "small")]
     f += ["field:" + x for x in c01.size_features(case, lambda c: "none" if c[2] == "none" else (c[2],))[0]]
     return f
